@@ -9,7 +9,7 @@ CONSTANTS
   Weights <- W2
   PatternW = TRUE
   TdFlags = {FALSE}
-  InVecs <- VecsT
+  InVecs <- VecsQ
   OrderKinds = {"IBOH"}
   ActSchemes <- SchemesQuick
   LinkCaps = {3}
